@@ -950,6 +950,9 @@ func verifKeys(t *testing.T, tier string) {
 		{"note", "/sizeclass", ".fullname,.config"},
 		{".fullname", "/size", "/abc"},
 		{"pkg,goos"},
+		// a file configuration key may contain '/' anywhere but at the start
+		{"cpu/model", ".config"},
+		{".config", "cpu/model", "/size"},
 	}
 	streams := 60
 	if tier == "thorough" {
@@ -962,7 +965,7 @@ func verifKeys(t *testing.T, tier string) {
 		{"", "/abc", "/a=1", "/a=2"},
 		{"", "-8", "-4"},
 	}
-	cfgKeys := []string{"goos", "note", "pkg", "runner"}
+	cfgKeys := []string{"goos", "note", "cpu/model", "pkg", "runner"}
 	cfgVals := []string{"a", "b", ""}
 	units := []string{"ns/op", "B/op", "allocs/op"}
 	genResult := func(stage int) *benchfmt.Result {
@@ -1175,5 +1178,5 @@ func verifKeys(t *testing.T, tier string) {
 			}
 		}
 	}
-	fmt.Printf("BOUNDED-RESULT {\"cases\": %d, \"failures\": %d, \"bound\": \"%d projection sets x all parse orders x %d random streams of 5-9 results (4 config keys appearing gradually, file and internal, 4 sub-name slots, 3 units)\", \"exhaustive\": false}\n", n, fails, len(sets), streams)
+	fmt.Printf("BOUNDED-RESULT {\"cases\": %d, \"failures\": %d, \"bound\": \"%d projection sets x all parse orders x %d random streams of 5-9 results (5 config keys, one with an interior '/', appearing gradually, file and internal, 4 sub-name slots, 3 units)\", \"exhaustive\": false}\n", n, fails, len(sets), streams)
 }
